@@ -66,8 +66,8 @@ class _VSelector(selectors.DefaultSelector):  # type: ignore[misc,valid-type]
                     loop.spin_jumps += 1
                 elif nxt is None and loop.livelock_is_deadlock:
                     loop._livelock_runs += 1
-                    if loop._livelock_runs >= 50:
-                        raise Deadlock("livelock: loop busy for 10000 iterations with no timer pending")
+                    if loop._livelock_runs * SPIN_N >= loop.livelock_ticks:
+                        raise Deadlock(f"livelock: loop busy for {loop.livelock_ticks} iterations with no timer pending" + _task_dump(loop))
             return events
         loop._spin = 0
         loop._livelock_runs = 0
@@ -98,6 +98,7 @@ class VLoop(asyncio.SelectorEventLoop):
         self.real_wait_s = 0.0  # > 0: allow a bounded real wait when idle (real fds / worker threads involved)
         self.expect_thread_wakeups = False
         self.livelock_is_deadlock = True
+        self.livelock_ticks = 1_000_000  # consecutive busy iterations without any timer before the run is declared a livelock
         super().__init__(selector=sel)
         self._self_pipe_fds = {self._ssock.fileno()} if getattr(self, "_ssock", None) is not None else set()
 
